@@ -357,11 +357,29 @@ def reachable_mutables(T):
         elif hasattr(o, "__dict__"):
             for k, v in vars(o).items():
                 visit(v, path, depth + 1)
+    # data served from the CLASS (a default assigned by an init function: a 'no data' record, an empty list) belongs
+    # to every table at once; it counts for table T when the attribute is one of T's initialised properties and the
+    # atom has no value of its own that hides it
+    props = set(getattr(T, "properties", ()))
+    class_data = {}
+    def class_level(cls):
+        if cls not in class_data:
+            found = []
+            for klass in cls.__mro__:
+                for k, v in vars(klass).items():
+                    if k in props and not k.startswith("__") and not hasattr(type(v), "__get__") and not isinstance(v, IMMUTABLE) \
+                            and not isinstance(v, type) and not any(k == f[0] for f in found):
+                        found.append((k, v))
+            class_data[cls] = found
+        return class_data[cls]
     def atom(a, name):
         for k, v in a.__dict__.items():
             if k in ("element", "ion"):
                 continue
             visit(v, "%s.%s" % (name, k), 0)
+        for k, v in class_level(type(a)):
+            if k not in a.__dict__ and not isinstance(a, core.Ion):
+                visit(v, "%s.%s" % (name, k), 0)
     for el in T:
         atom(el, el.symbol)
         for q, ion in el.ion.ionset.items():
